@@ -626,6 +626,8 @@ def load_fields(stream: "SupportsRead[bytes]") -> Generator[ParsedField, None, N
         num_wire, raw = load_varint(stream, first)
         number = num_wire >> 3
         wire_type = num_wire & 0x7
+        if number == 0:
+            raise ValueError("Invalid field number 0.")
 
         decoded: Any = None
         if wire_type == WIRE_VARINT:
@@ -655,6 +657,8 @@ def parse_fields(value: bytes) -> Generator[ParsedField, None, None]:
         num_wire, i = decode_varint(value, i)
         number = num_wire >> 3
         wire_type = num_wire & 0x7
+        if number == 0:
+            raise ValueError("Invalid field number 0.")
 
         decoded: Any = None
         if wire_type == WIRE_VARINT:
